@@ -25,9 +25,12 @@ package twofactor
 //@ func GenerateRecoveryCodes
 //@   property C13 C12
 //@   option summary callers use this contract, not the body
-//@   option trusted body not verified (formatting of 10 random codes over an alphabet; two nested loops over a strings.Builder)
-//@   option bounded twofactor_codes 500 calls
+//@   -- proved on the body since round 11 (strings.Builder is an environment entry)
+//@   invariant loop#1 outer_in_range: rangeindex >= -1 && rangeindex < 10
+//@   invariant loop#2 inner_in_range: j >= 0 && j <= recoveryCodeLength && i >= 0 && i < 10
 //@   ensures ten_codes: result.1 == nil ==> len(result.0) == 10
+//@   ensures entropy_error_outcome: each Rand.Read(_) -> ?e => e != nil ==> (result.1 == e && len(result.0) == 0)
+//@   ensures no_panic: !panics
 //@
 //@ func BCryptRecoveryCodes
 //@   property C13 C12 C17
